@@ -10,7 +10,8 @@ open LyModel
 /-! ### pass 1 does not depend on `sp` tokens / `checkversion` except through the version check -/
 def S1.key (s : S1) : Int × Bool × Nat × Nat × Nat := (s.j, s.lastNot, s.fSize, s.fExp, s.exprSize)
 
-theorem run1_key : ∀ (l : List T1) (s s' : S1), s.key = s'.key → (run1 l s).map S1.key = (run1 l s').map S1.key := by
+theorem run1_key (fx : Fix) : ∀ (l : List T1) (s s' : S1), s.key = s'.key →
+    (run1 fx l s).map S1.key = (run1 fx l s').map S1.key := by
   intro l
   induction l with
   | nil => intro s s' h; simp [run1, Except.map, h]
@@ -20,7 +21,11 @@ theorem run1_key : ∀ (l : List T1) (s s' : S1), s.key = s'.key → (run1 l s).
     obtain ⟨hj, hl, hs, he, hx⟩ := h
     cases t with
     | lp => simp only [run1]; exact ih _ _ (by simp [S1.key, hj, hl, hs, he, hx])
-    | rp => simp only [run1]; exact ih _ _ (by simp [S1.key, hj, hl, hs, he, hx])
+    | rp =>
+      simp only [run1, hj]
+      split
+      · simp [Except.map]
+      · exact ih _ _ (by simp [S1.key, hj, hl, hs, he, hx])
     | sp => simp only [run1]; exact ih _ _ (by simp [S1.key, hj, hl, hs, he, hx])
     | uend => simp [run1, Except.map]
     | feat => simp only [run1]; exact ih _ _ (by simp [S1.key, hj, hs, he, hx])
@@ -35,7 +40,8 @@ theorem run1_key : ∀ (l : List T1) (s s' : S1), s.key = s'.key → (run1 l s).
       · simp [Except.map]
       · exact ih _ _ (by simp [S1.key, hj, hs, he, hx])
 
-theorem run1_dropSp : ∀ (l : List T1) (s : S1), (run1 l s).map S1.key = (run1 (l.filter notSp) s).map S1.key := by
+theorem run1_dropSp (fx : Fix) : ∀ (l : List T1) (s : S1),
+    (run1 fx l s).map S1.key = (run1 fx (l.filter notSp) s).map S1.key := by
   intro l
   induction l with
   | nil => intro s; rfl
@@ -46,9 +52,14 @@ theorem run1_dropSp : ∀ (l : List T1) (s : S1), (run1 l s).map S1.key = (run1 
       have : notSp .sp = false := rfl
       simp only [List.filter_cons, this, Bool.false_eq_true, if_false, run1]
       rw [← ih s]
-      exact run1_key r _ _ (by simp [S1.key])
+      exact run1_key fx r _ _ (by simp [S1.key])
     | lp => have : notSp .lp = true := rfl; simp only [List.filter_cons, this, if_true, run1]; exact ih _
-    | rp => have : notSp .rp = true := rfl; simp only [List.filter_cons, this, if_true, run1]; exact ih _
+    | rp =>
+      have : notSp .rp = true := rfl
+      simp only [List.filter_cons, this, if_true, run1]
+      split
+      · rfl
+      · exact ih _
     | uend => have : notSp .uend = true := rfl; simp [List.filter_cons, this, run1]
     | feat => have : notSp .feat = true := rfl; simp only [List.filter_cons, this, if_true, run1]; exact ih _
     | not =>
@@ -62,17 +73,17 @@ theorem run1_dropSp : ∀ (l : List T1) (s : S1), (run1 l s).map S1.key = (run1 
       · rfl
       · exact ih _
 
-theorem compileToks_key (lookup : Bytes → Option Nat) (t1 t1' : List T1) (t2 : List T2)
-    (h : (run1 t1 {}).map S1.key = (run1 t1' {}).map S1.key) :
-    compileToks lookup true t1 t2 = compileToks lookup true t1' t2 := by
+theorem compileToks_key (fx : Fix) (lookup : Bytes → Option Nat) (t1 t1' : List T1) (t2 : List T2)
+    (h : (run1 fx t1 {}).map S1.key = (run1 fx t1' {}).map S1.key) :
+    compileToks fx lookup true t1 t2 = compileToks fx lookup true t1' t2 := by
   unfold compileToks
-  cases h1 : run1 t1 {} with
+  cases h1 : run1 fx t1 {} with
   | error e =>
-    cases h2 : run1 t1' {} with
+    cases h2 : run1 fx t1' {} with
     | error e' => rw [h1, h2] at h; simp [Except.map] at h; simp [h]
     | ok s' => rw [h1, h2] at h; simp [Except.map] at h
   | ok s =>
-    cases h2 : run1 t1' {} with
+    cases h2 : run1 fx t1' {} with
     | error e' => rw [h1, h2] at h; simp [Except.map] at h
     | ok s' =>
       rw [h1, h2] at h
@@ -124,9 +135,9 @@ theorem pass2_tokens (lookup : Bytes → Option Nat) (e : Expr) (size fsize : Na
   · have := popAll_spec size e.pend ⟨e.pend, e.body, e.feats lookup⟩ (by simp; omega)
     simpa [Expr.code] using this
 
-theorem compileToks_correct (lookup : Bytes → Option Nat) (e : Expr) (hres : e.Resolves lookup)
-    (hH : e.NoNotParenNot) : compileToks lookup true e.toks1 e.toks2 = .ok (e.compiled lookup) := by
-  have h1 := run1_expr e [] {} hH rfl (by intro h; simp at h)
+theorem compileToks_correct (fx : Fix) (lookup : Bytes → Option Nat) (e : Expr) (hres : e.Resolves lookup)
+    (hH : fx.f13 = false → e.NoNotParenNot) : compileToks fx lookup true e.toks1 e.toks2 = .ok (e.compiled lookup) := by
+  have h1 := run1_expr fx e [] {} hH rfl (by decide) (by intro h; simp at h)
   simp only [List.append_nil, run1] at h1
   have hnf := Expr.nfeat_eq e
   have hcl : e.clen false = e.code.length := Expr.clen_false e
@@ -166,10 +177,10 @@ theorem lex2_render (e : Expr) : lex2 e.render.reverse none false = e.toks2 := b
   have := lex2_expr e [] false false trivial
   simpa [lex2] using this
 
-theorem compile_render (lookup : Bytes → Option Nat) (e : Expr) :
-    compile lookup true e.render = compileToks lookup true e.toks1 e.toks2 := by
+theorem compile_render (fx : Fix) (lookup : Bytes → Option Nat) (e : Expr) :
+    compile fx lookup true e.render = compileToks fx lookup true e.toks1 e.toks2 := by
   unfold compile
-  rw [lex2_render, compileToks_key lookup (lex1 false e.render) e.toks1 e.toks2]
+  rw [lex2_render, compileToks_key fx lookup (lex1 false e.render) e.toks1 e.toks2]
   rw [run1_dropSp, lex1_render]
 
 /-! ### monotonicity in the array sizes: a run that stays inside smaller arrays is the same run in larger ones -/
@@ -272,10 +283,10 @@ theorem run2_mono (lookup : Bytes → Option Nat) {size size' fsize fsize' : Nat
       exact run2_mono lookup h hf r s1 s' he
 
 /-- whatever pass 1 computed: if the compiler returns at all, it returns the right thing (no F13 hypothesis) -/
-theorem compileToks_sound (lookup : Bytes → Option Nat) (e : Expr) (hres : e.Resolves lookup) (t1 : List T1)
-    (c : Compiled) (h : compileToks lookup true t1 e.toks2 = .ok c) : c = e.compiled lookup := by
+theorem compileToks_sound (fx : Fix) (lookup : Bytes → Option Nat) (e : Expr) (hres : e.Resolves lookup) (t1 : List T1)
+    (c : Compiled) (h : compileToks fx lookup true t1 e.toks2 = .ok c) : c = e.compiled lookup := by
   unfold compileToks at h
-  cases h1 : run1 t1 {} with
+  cases h1 : run1 fx t1 {} with
   | error er => simp [h1] at h
   | ok s1 =>
     simp only [h1] at h
